@@ -21,6 +21,8 @@ namespace sim {
 
 std::function<void()> g_onTick;
 std::function<void()> g_beforeRun;
+Oomd::Engine::Engine* g_engine = nullptr;
+Oomd::Config2::IR::Root* g_ir = nullptr;
 
 int64_t ns(int64_t s) {
   return s * 1000000000LL;
@@ -180,6 +182,8 @@ DaemonResult runDaemon() {
     return c;
   };
 
+  g_engine = engine.get();
+  g_ir = ir.get();
   if (g_beforeRun)
     g_beforeRun();
 
@@ -204,6 +208,8 @@ DaemonResult runDaemon() {
     violate("C10.exception-escaped-main-loop",
             std::string("std::exception: ") + e.what());
   }
+  g_engine = nullptr;
+  g_ir = nullptr;
   return dr;
 }
 
